@@ -13,7 +13,9 @@ import random
 
 PROPERTY = "C15"
 LEVEL = "model_checking"
-ENCODED = ["pyrefact.core:literal_value", "pyrefact.core:has_side_effect", "pyrefact.core:match_template"]
+ENCODED = ["pyrefact.core:literal_value", "pyrefact.core:has_side_effect", "pyrefact.core:match_template",
+           "pyrefact.symbolic_math:simplify_boolean_expressions", "pyrefact.fixes:remove_redundant_boolop_values",
+           "pyrefact.fixes:remove_dead_ifs"]
 STUBS = ["effectful builtins (print input open exec eval compile exit quit breakpoint help __import__ setattr "
          "delattr globals locals) are recording stubs in the instrumented module global `builtins`: a recorded call "
          "is the violation 'evaluation has effects'"]
@@ -40,7 +42,9 @@ SINGLETONS = {"None", "True", "False", "b0", "b1"}
 
 
 def bounds(tier):
-    return {"expression_depth": 2 if tier == "quick" else 3, "int_leaves": "all integers (symbolic); -3..6 in the "
+    return {"consumer_programs": "every comparison of two constants from 16 literal kinds (ints symbolic) in seven "
+            "positions of a closed program, through three folding rules and the pipeline (quick: fixed core + 120 sampled)",
+            "expression_depth": 2 if tier == "quick" else 3, "int_leaves": "all integers (symbolic); -3..6 in the "
             "bounded regime", "exponents_shifts": "-3..6", "depth2_sample": 3000 if tier == "quick" else 60000}
 
 
@@ -253,6 +257,88 @@ def ob_expr(expr, bounded=False, budget_s=8.0):
     return d
 
 
+# ----------------------------------------------------------------------------------------------------
+# consumers: the rules that fold a condition / drop an operand *because of* a constant value. The constant
+# expression sits in a closed program next to a run-time input (so the consumer cannot fold the whole condition away
+# through another route), integer constants are marker literals (symbolic while the rule runs and while both programs
+# are executed), the other constants are the literal kinds on which comparison is not a total order (sets, NaN,
+# mixed numeric / string / None operands). Decided by symbolic translation validation (pool.ob_tv).
+FOLD_LEAVES = ["7000", "7001", "1", "1.5", "0.0", "True", "'ab'", "'a'", "{1, 2}", "{2, 3}", "{1}", "frozenset({1})",
+               "float('nan')", "(1, 2)", "[1, 2]", "None"]
+FOLD_OPS = ["<", "<=", ">", ">=", "==", "!=", "in", "not in"]
+FOLD_TRANSFORMS = ["rule:symbolic_math.simplify_boolean_expressions", "rule:fixes.remove_redundant_boolop_values",
+                   "rule:fixes.remove_dead_ifs", "format_code:safe=0"]
+FOLD_CORE = [("{1, 2}", "{2, 3}"), ("{2, 3}", "{1, 2}"), ("{1}", "{1, 2}"), ("{1, 2}", "{1}"), ("frozenset({1})", "{2, 3}"),
+             ("float('nan')", "0.0"), ("1.5", "float('nan')"), ("float('nan')", "float('nan')"), ("7000", "7001"),
+             ("7000", "1.5"), ("True", "1"), ("1", "True"), ("'a'", "'ab'"), ("(1, 2)", "[1, 2]"), ("None", "None"),
+             ("1", "{1, 2}"), ("'a'", "'ab'"), ("7000", "(1, 2)"), ("1", "[1, 2]"), ("0.0", "1")]
+FOLD_BODY = """
+def main(v, w):
+    out = []
+    if v > 0 and (EXPR):
+        out.append("and")
+    if v > 0 or (EXPR):
+        out.append("or")
+    if w > 0 and not (EXPR):
+        out.append("and-not")
+    flag = (EXPR)
+    out.append(flag)
+    out.append(1 if (EXPR) else 2)
+    out.append([x for x in (v, w) if (EXPR)])
+    while (EXPR):
+        out.append("loop")
+        break
+    return out
+
+
+print(main(inp(), inp()))
+"""
+
+
+def fold_expressions():
+    out = []
+    for op in FOLD_OPS:
+        for a in FOLD_LEAVES:
+            for b in FOLD_LEAVES:
+                out.append(("%s %s %s" % (a, op, b), (a, b) in FOLD_CORE))
+    for a in FOLD_LEAVES:
+        out.append(("not %s" % a, True))
+        out.append(("bool(%s)" % a, False))
+        out.append(("len(%s) > 7000" % a, False))
+    out += [("7000 < 7001 < 7002", True), ("7000 <= 7001 > 7002", True), ("7000 == 7001 != 7002", True),
+            ("{1} <= {1, 2} <= {3}", True), ("1 < float('nan') < 3", True), ("abs(7000 - 7001) >= 0", True),
+            ("max(7000, 7001) >= min(7000, 7001)", True), ("sum([7000, 7001]) == 7000 + 7001", True),
+            ("7000 in (7001, 1)", True), ("7000 // 7001 >= 0", True),
+            ("7000 % 7001 < 7001", True), ("7000 / 7001 <= 1", True), ("-7000 <= 7001", True), ("7000 - 7001 > 0", True),
+            ("7000 * 7001 >= 7000", True), ("'a' * 7000 == ''", True), ("len('ab' * 7000) == 2 * 7000", True)]
+    return out
+
+
+def fold_skeleton(expr):
+    from vk.pool import Skeleton
+    from vk.symtv import prelude
+
+    return Skeleton("fold/%s" % expr, prelude(4) + FOLD_BODY.replace("EXPR", expr).lstrip("\n"), tape=4, fuel=300)
+
+
+def fold_obligations(tier, rnd):
+    from vk import pool
+    from vk.common import Obligation
+
+    exprs = fold_expressions()
+    core = [e for e, c in exprs if c]
+    rest = [e for e, c in exprs if not c]
+    chosen = core + (rnd.sample(rest, 120) if tier == "quick" else rest)
+    obs = []
+    for e in chosen:
+        sk = fold_skeleton(e)
+        for tr in (FOLD_TRANSFORMS if (tier != "quick" or e in core) else FOLD_TRANSFORMS[:1] + FOLD_TRANSFORMS[3:]):
+            obs.append(Obligation("fold/%s/%s" % (tr.split(":")[1].split(".")[-1], e), pool.ob_tv,
+                                  dict(skeleton=sk.to_json(), transform=tr, budget_s=40.0, max_cex=3, max_paths=400),
+                                  hard_timeout=90, sample={"expression": e, "transform": tr}))
+    return obs
+
+
 def obligations(tier, seed):
     from vk.common import Obligation
 
@@ -267,7 +353,7 @@ def obligations(tier, seed):
         chunk = exprs[i:i + B]
         obs.append(Obligation("expr-batch/%d" % (i // B), ob_batch, {"exprs": chunk}, hard_timeout=60 * len(chunk),
                               sample={"expressions": chunk[:5]}))
-    return obs
+    return obs + fold_obligations(tier, rnd)
 
 
 def ob_batch(exprs):
@@ -296,6 +382,10 @@ def ob_batch(exprs):
 
 
 def case_of(ob, r, cex):
+    if ob.oid.startswith("fold/"):
+        from vk import pool
+
+        return pool.tv_case(ob, r, cex)
     info = cex.get("info") or {}
     what = info.get("what", "?")
     region = what if what != "raises" else "raises:%s" % info.get("exception")
@@ -309,6 +399,10 @@ def replay(case):
     import contextlib
     import io
 
+    if case.get("kind") == "tv":
+        from vk import pool
+
+        return pool.tv_replay(case)
     from pyrefact import core
 
     expr, model = case["expr"], case["model"]
